@@ -264,6 +264,36 @@ fn main() {
         rep.merge(r);
     }
     rep.exhaustive(format!("Windower: every (L in 0..={}, bin in 2..=L+2, hop in 1..=L+2) x {{hann, rectangle}} x {{f64, [f32;2], [i16;2]}}", lmax));
+    // hops around the integer-width boundaries (2^32 + small, multiples of 2^32, 2^63, ...): a hop
+    // handled in a narrower type looks like a small hop (or zero) there
+    {
+        let mut wide = Vec::new();
+        for l in [0usize, 2, 3, 5, 16, 24] {
+            for b in [2usize, l / 2, l, l + 1] {
+                if b < 2 {
+                    continue;
+                }
+                for h in vmon::edge::wide_usizes(l + 2) {
+                    if h > 300 {
+                        wide.push((l, b, h));
+                    }
+                }
+            }
+        }
+        rep.oblige("windower_hop_at_least_2_pow_32", 1);
+        let reps = vmon::par_for(cli.threads, wide.len() as u64, 64, |_| Report::new("C20", "w"), |rep, i| {
+            let (l, b, h) = wide[i as usize];
+            windower_all(rep, l, b, h);
+            if (h as u128) >= (1u128 << 32) && l >= b {
+                rep.hit("windower_hop_at_least_2_pow_32");
+            }
+            rep.nontrivial(vmon::hash_combine(0x89, vmon::hash_combine((l * 100 + b) as u64, h as u64)));
+            rep.eval(EVALS.with(|c| c.replace(0)));
+        });
+        for r in reps {
+            rep.merge(r);
+        }
+    }
     // a few long inputs
     let mut rng = Rng::derive(cli.seed, &[201]);
     for _ in 0..cli.t(20, 300) {
